@@ -35,6 +35,11 @@ def first_steps(runs):
     return out
 
 
+def _bit(st, i):
+    import zlib
+    return (zlib.crc32(json.dumps([st['shape'], st['kind'], i], sort_keys=True).encode()) >> 3) % 2 == 0
+
+
 def render(sh, tables):
     """abstract log -> text in the documented LAMMPS layout; tables = expected tables (cell codes) for the printed rows"""
     L = []
@@ -113,6 +118,12 @@ def replay_history(am, h, tmpdir, tag):
                 sh = st['shape']
                 ntab = len(sh['runs'])
                 text = render(sh, st['sims'][-ntab:])
+                cutin = False
+                if sh['trunc'] < 0 and sh['timing'] and _bit(st, i):
+                    # the process died INSIDE the timing breakdown of its last run: every thermo row was printed, the tables are the same
+                    k_ = text.rfind('MPI task timing breakdown:')
+                    text = text[:text.index('\n', text.index('Pair', k_)) + 1]
+                    cutin = True
                 kind = st['kind']
                 if kind == 'text':
                     log.read(text, append=st['append'])
@@ -125,7 +136,7 @@ def replay_history(am, h, tmpdir, tag):
                     log.read(io.BytesIO(text.encode()), append=st['append'])
                 bad = cmp_tables(log, st['sims'], st['version'])
                 if bad:
-                    lastkind = 'complete' if sh['trunc'] < 0 else ('cut after header' if sh['trunc'] == 0 else 'cut after rows')
+                    lastkind = ('cut inside the timing breakdown' if cutin else 'complete') if sh['trunc'] < 0 else ('cut after header' if sh['trunc'] == 0 else 'cut after rows')
                     return ('read[%s,%s]: %s' % (kind, lastkind, bad.split(',')[0].split(' = ')[0][:70]), where + ' :: ' + bad + '\n' + text[-600:])
             else:
                 res = log.flatten(style=st['style']).thermo
@@ -157,6 +168,66 @@ def replay_history(am, h, tmpdir, tag):
             tb = traceback.extract_tb(e.__traceback__)[-1]
             return ('%s raised %s' % (st['act'], excname(e)), where + ' ' + repr(e)[:300] + ' at %s:%s' % (os.path.basename(tb.filename), tb.lineno))
     return None
+
+
+FAKE_LMP = r"""#!{python}
+import sys
+args = sys.argv[1:]
+logfile = args[args.index('-log') + 1] if '-log' in args else 'log.lammps'
+script = sys.stdin.read()
+k = int(script.split('runid')[1].split()[0])
+lines = ['LAMMPS (2 Aug 2023 - Update 1)', script.strip(), '',
+         'Per MPI rank memory allocation (min/avg/max) = 3.2 | 3.2 | 3.2 Mbytes',
+         '   Step          Temp          PotEng    ']
+for n in range(3):
+    step = 100 * k + 20 * n
+    lines.append('%10d   %-14.8g %-14.8g' % (step, 300.0 + k + 0.125 * n, -4.0 - 0.5 * step))
+lines += ['Loop time of 0.0123 on 1 procs for 100 steps with 4 atoms', '', 'Total wall time: 0:00:00', '']
+text = '\n'.join(lines)
+if logfile != 'none':
+    with open(logfile, 'w') as f:
+        f.write(text)
+if '-screen' not in args:
+    sys.stdout.write(text)
+"""
+
+
+def restart_histories(am, workdir, nrestarts):
+    """atomman.lammps.run() with automatic restarts, driven by a stand-in executable that writes a well-formed log whose step range names
+    the invocation: after k restarts the returned Log holds k + 1 runs IN THE ORDER IN WHICH THEY WERE PERFORMED (each further log is
+    appended after the existing ones), with the printed values"""
+    import stat
+    import sys
+    import tempfile
+    import atomman.lammps as lmp
+    out = []
+    start = os.getcwd()
+    tmp = tempfile.mkdtemp(prefix='restart_', dir=workdir)
+    try:
+        os.chdir(tmp)
+        exe = os.path.join(tmp, 'fake_lmp')
+        with open(exe, 'w') as f:
+            f.write(FAKE_LMP.format(python=sys.executable))
+        os.chmod(exe, os.stat(exe).st_mode | stat.S_IXUSR)
+        for screen in (True, False):
+            for name in os.listdir(tmp):
+                if name.endswith('.lammps'):
+                    os.remove(name)
+            for k in range(nrestarts + 1):
+                log = lmp.run(exe, script='# runid 0 \n', restart_script='# runid %d \n' % k, screen=screen)
+                first = [int(sim.thermo.Step.iloc[0]) for sim in log.simulations]
+                if first != [100 * m for m in range(k + 1)]:
+                    out.append(('run(restart): runs are not in the order in which they were performed', 'screen=%s, after %d restarts the first steps are %s' % (screen, k, first)))
+                    break
+                for m, sim in enumerate(log.simulations):
+                    if list(sim.thermo.columns) != ['Step', 'Temp', 'PotEng'] or [float(x) for x in sim.thermo.Temp] != [300.0 + m + 0.125 * n for n in range(3)]:
+                        out.append(('run(restart): printed values of an earlier run changed', 'screen=%s, restart %d, run %d' % (screen, k, m)))
+                        break
+    finally:
+        os.chdir(start)
+        import shutil
+        shutil.rmtree(tmp, ignore_errors=True)
+    return out
 
 
 def _chunk(args):
@@ -207,6 +278,12 @@ def run(ctx):
                 ctx.nontrivial_count += 1
             if bad:
                 ctx.violation(bad[0], bad[1], h)
+    # restarts through atomman.lammps.run(): a further log is appended after the existing ones, however many there are (12 in the quick tier)
+    for sig, det in restart_histories(am, ctx.work, 12 if quick else 25):
+        ctx.violation(sig, det)
+    ctx.count(2)
+    ctx.nontrivial_count += 2
+    ctx.extra['restart_sequences_through_run'] = 2
     hh = [h for h in hists if len(h) == 2 and len(h[0]['shape']['runs']) == 2][7]
     ctx.sample({'kind': 'S->C history', 'steps': [{k: v for k, v in s.items() if k != 'sims'} for s in hh]})
     ctx.sample({'kind': 'rendered log of that history', 'text': render(hh[0]['shape'], hh[0]['sims'])})
